@@ -13,6 +13,11 @@ from vmon.gen import spelling
 
 VALUES = {'quick': 12, 'thorough': 40}
 VARIANTS = {'quick': 120, 'thorough': 600}
+SYNTH_BLOCKS = {'quick': 40, 'thorough': 400}
+# values a modelled field cannot interpret: the field is then kept as an unparsed one (its spelled name becomes data)
+UNINTERPRETABLE = {'Age': 'abc', 'Strict-Transport-Security': 'max-age=one year', 'Date': 'yesterday', 'Content-Type': 'nonsense',
+                   'X-Frame-Options': 'MAYBE', 'Expires': '0', 'Pragma': 'cache', 'Referrer-Policy': 'whatever',
+                   'X-Content-Type-Options': 'sniff', 'Set-Cookie': 'novalue'}
 
 
 def split_header_block(block):
@@ -74,10 +79,54 @@ class Check(core.CheckBase):
             if self.mine(index):
                 yield {'kind': 'nel', 'cls': name, 'number': number}
         name = 'cryptoparser.httpx.header:HttpHeaderFields'
-        for number in range(len(self.corpus.get(name, []))):
+        for number in range(len(self.corpus.get(name, [])) + SYNTH_BLOCKS[self.tier]):
             index += 1
             if self.mine(index):
                 yield {'kind': 'block', 'cls': name, 'number': number}
+
+    def field_pool(self):
+        """Canonical field lines: the fields of the corpus blocks plus, per modelled field, the corpus values of its value type."""
+        if not hasattr(self, '_field_pool'):
+            import cryptoparser.httpx.header as header  # pylint: disable=import-outside-toplevel
+            from cryptoparser.common.utils import get_leaf_classes  # pylint: disable=import-outside-toplevel
+            pool = {}
+            for block in self.corpus.get('cryptoparser.httpx.header:HttpHeaderFields', []):
+                for field_name, value in split_header_block(block):
+                    if value not in pool.setdefault(field_name, []):
+                        pool[field_name].append(value)
+            for field_cls in get_leaf_classes(header.HttpHeaderFieldParsedBase):
+                value_cls = field_cls._get_value_class()  # pylint: disable=protected-access
+                field_name = field_cls.get_header_field_name().value.normalized_name
+                for value in self.values_of('%s:%s' % (value_cls.__module__, value_cls.__qualname__))[:12]:
+                    try:
+                        text = value.decode('ascii')
+                    except UnicodeDecodeError:
+                        continue
+                    if text and text == text.strip(' \t') and '\r' not in text and '\n' not in text and \
+                            text not in pool.setdefault(field_name, []):
+                        pool[field_name].append(text)
+            self._field_pool = pool
+        return self._field_pool
+
+    def block_of(self, case):
+        """(block bytes, names whose spelling is data there). Numbers past the corpus are synthesised from the pool."""
+        blocks = self.corpus.get(case['cls'], [])
+        if case['number'] < len(blocks):
+            return blocks[case['number']], set()
+        pool = self.field_pool()
+        rng = random.Random('C18/synth/%d' % case['number'])
+        names = rng.sample(sorted(pool), rng.randint(1, len(pool)))
+        lines, verbatim = [], set()
+        for field_name in names:
+            if field_name in UNINTERPRETABLE and rng.random() < 0.15:
+                lines.append((field_name, UNINTERPRETABLE[field_name]))
+                verbatim.add(field_name.lower())
+            else:
+                lines.append((field_name, rng.choice(pool[field_name])))
+            if rng.random() < 0.15:
+                lines.append(('X-Verif-Token-%d' % rng.randrange(4), rng.choice(['1', 'token', 'a b c', 'x=1; y=2'])))
+        self.stats['synthesised_blocks'] += 1
+        return b''.join(('%s: %s\r\n' % line).encode('ascii') for line in lines) + b'\r\n', verbatim
 
     def judge(self, case):
         return getattr(self, 'judge_' + case['kind'])(case)
@@ -205,12 +254,14 @@ class Check(core.CheckBase):
     def judge_block(self, case):  # pylint: disable=too-many-locals
         name = case['cls']
         cls = self.classes[name]
-        block = self.corpus[name][case['number']]
+        block, verbatim = self.block_of(case)
         found = []
         try:
             reference_obj = cls.parse_exact_size(block)
-        except Exception:  # pylint: disable=broad-except
-            return []
+        except Exception as e:  # pylint: disable=broad-except
+            # every line is a canonical spelling the field's own parser produced (or an unknown / uninterpretable field)
+            return [self.violation('block-rejected|canonical%s' % ('+uninterpretable-value' if verbatim else ''),
+                                   'a block of canonical field lines is rejected: %r' % e, dict(case, block=block.hex()))]
         expected = split_header_block(block)
         self.stats['header_blocks'] += 1
 
@@ -240,7 +291,8 @@ class Check(core.CheckBase):
             only = ('field-name-case', 'ows-after-colon', 'ows-before-crlf')[round_number % 3] if round_number < 18 else None
             for field_name, value in expected:
                 spelled = field_name
-                if only in (None, 'field-name-case') and rng.random() < 0.5 and field_name.lower() in known_names:
+                if only in (None, 'field-name-case') and rng.random() < 0.5 and field_name.lower() in known_names and \
+                        field_name.lower() not in verbatim:
                     spelled = spelling._recase(field_name, rng)  # pylint: disable=protected-access
                     if spelled != field_name:
                         used.add('field-name-case')
@@ -290,4 +342,4 @@ class Check(core.CheckBase):
         return list(dedup.values())
 
     def floors(self):
-        return {'variants_parsed': 1500, 'canonical_spellings': 25, 'header_blocks': 2}
+        return {'variants_parsed': 1500, 'canonical_spellings': 25, 'header_blocks': 10, 'synthesised_blocks': 8}
